@@ -82,6 +82,8 @@ type interpreter struct {
 	memo          map[*Term]uint64
 	impliedCache  map[*Term]int
 	symbolicRand  bool
+	native        map[*value]interface{}
+	syncMaps      map[*value]*omap
 	inInit        int
 	stubs         map[string]value
 	pcHard        int
@@ -218,6 +220,7 @@ func noInitPkg(path string) bool {
 		"compress/gzip", "compress/flate", "flag", "text/tabwriter",
 		"github.com/btcsuite/btcd/btcec/v2", "github.com/decred/dcrd/dcrec/secp256k1/v4",
 		"github.com/btcsuite/btcd/btcec/v2/ecdsa", "github.com/btcsuite/btcd/btcec/v2/schnorr",
+		"github.com/decred/dcrd/dcrec/secp256k1/v4/ecdsa", "github.com/decred/dcrd/dcrec/secp256k1/v4/schnorr",
 		"go.etcd.io/bbolt", "golang.org/x/sys/unix", "golang.org/x/crypto/ripemd160",
 		"github.com/davecgh/go-spew/spew", "github.com/lightninglabs/neutrino",
 		"github.com/btcsuite/btcd/rpcclient", "github.com/btcsuite/websocket", "net/http":
@@ -308,11 +311,11 @@ func classifyPanic(r interface{}) interface{} {
 			strings.Contains(msg, "out of range") {
 			return runtimeErr(strings.TrimPrefix(msg, "runtime error: "))
 		}
-		return engineBug(fmt.Sprintf("engine run-time error: %s\n%s", msg, debug.Stack()))
+		return engineBug(fmt.Sprintf("engine run-time error: %s\n%s", msg, shortStack()))
 	case string:
-		return engineBug(fmt.Sprintf("engine panic: %s\n%s", p, debug.Stack()))
+		return engineBug(fmt.Sprintf("engine panic: %s\n%s", p, shortStack()))
 	}
-	return engineBug(fmt.Sprintf("engine panic: %T %v\n%s", r, r, debug.Stack()))
+	return engineBug(fmt.Sprintf("engine panic: %T %v\n%s", r, r, shortStack()))
 }
 
 // lookupMethod returns the method set for type typ.
@@ -665,8 +668,6 @@ func callSSA(i *interpreter, caller *frame, callpos token.Pos, fn *ssa.Function,
 			// dependency initialisation is lazy: skip
 			return nil
 		}
-	} else if fn.Pkg != nil && !i.inited[fn.Pkg] {
-		i.initPkg(fn.Pkg)
 	}
 	if i.stubs != nil {
 		if impl, ok := i.stubs[fn.String()]; ok {
@@ -677,6 +678,9 @@ func callSSA(i *interpreter, caller *frame, callpos token.Pos, fn *ssa.Function,
 	if ext := i.P.external(fn); ext != nil {
 		i.stubsHit[fn.String()]++
 		return ext(fr, args)
+	}
+	if fn.Synthetic != "package initializer" && fn.Pkg != nil && !i.inited[fn.Pkg] {
+		i.initPkg(fn.Pkg)
 	}
 	if fn.Blocks == nil {
 		i.unsupported("no code for function: " + fn.String())
@@ -858,4 +862,16 @@ func (i *interpreter) panicString(p interface{}) string {
 		return p.Error()
 	}
 	return fmt.Sprint(p)
+}
+
+// shortStack returns the innermost frames of the Go stack (engine bugs).
+func shortStack() string {
+	ls := strings.Split(string(debug.Stack()), "\n")
+	if len(ls) > 22 {
+		ls = ls[7:22]
+	}
+	for k := range ls {
+		ls[k] = strings.TrimSpace(ls[k])
+	}
+	return strings.Join(ls, " | ")
 }
